@@ -75,7 +75,8 @@ def _lookup_arithmetic(f):
     if idx is None:
         return None
     guards = [n.test for n in ast.walk(f.node) if isinstance(n, ast.If) and f"len({lines_var})" in ast.unparse(n.test) and any(isinstance(s, ast.Return) for s in n.body)]
-    line_names = sorted({x.id for x in ast.walk(idx.slice) if isinstance(x, ast.Name)} | {ast.unparse(x) for x in ast.walk(idx.slice) if isinstance(x, ast.Attribute)})
+    attrs = {ast.unparse(x) for x in ast.walk(idx.slice) if isinstance(x, ast.Attribute)}
+    line_names = sorted(attrs) if attrs else sorted({x.id for x in ast.walk(idx.slice) if isinstance(x, ast.Name)})
     if len(line_names) != 1:
         return None
     LN = line_names[0]
